@@ -1853,8 +1853,15 @@ class Process:
 
     @wrap_exceptions
     def environ(self):
-        with open_text(f"{self._procfs_path}/{self.pid}/environ") as f:
-            data = f.read()
+        try:
+            with open_text(f"{self._procfs_path}/{self.pid}/environ") as f:
+                data = f.read()
+        except ProcessLookupError:
+            # ESRCH means "no address space": a zombie, a process
+            # which is gone, but also a live kernel thread.
+            self._raise_if_zombie()
+            self._raise_if_not_alive()
+            return {}
         return parse_environ_block(data)
 
     @wrap_exceptions
